@@ -115,6 +115,7 @@ READY = {
 
 # glue added by site extraction (DESIGN §12.2): appended to the level text / note / technique of the property
 GLUE = {
+    "C03": "The class wiring executed by the driver (Model/NeuronF.lean: which kernel, time constant, threshold, input, reset rule, adaptation update per class) is proved equal (Props/C03GlueF.lean) to the _integrate_v / forward call sites REGENERATED from the neuron classes on every run.",
     "C01": "Pointer arithmetic: Ring.unwind is proved equal (Props/C13Glue.lean) to _unwind_ptr as REGENERATED from core/infrastructure.py on every run.",
     "C04": "The per-step recurrences of the model are proved equal (Props/C04Glue.lean) to the right-hand sides of self.current / pos_current / neg_current, the delta-plus pulse and the spike_to_current closure REGENERATED from the synapse classes' source on every run (site extraction).",
     "C07": "What each of the twelve reducer classes supplies (fold, interpolate, decay update) is proved equal (Props/C07Glue.lean) to the bodies of its methods REGENERATED from observe/reducers/*.py on every run.",
